@@ -77,7 +77,11 @@ type MessageQueue struct {
 	builders       []*Builder
 	// stopped is set, under buildersLk, once the run loop has exited after a
 	// shutdown: nothing will send or report builders queued from then on
-	stopped            bool
+	stopped bool
+	// memoryReleased is set, under buildersLk, when the run loop hands all of
+	// the peer's memory back on its way out: a reservation asked for before
+	// that moment is covered by it, and none is asked for afterwards
+	memoryReleased     bool
 	nextBuilderTopic   Topic
 	allocator          Allocator
 	maxRetries         int
@@ -105,15 +109,27 @@ func New(ctx context.Context, p peer.ID, network MessageNetwork, allocator Alloc
 // If blkSize > 0, message building may block until enough memory has been freed from the queues to allocate the message.
 func (mq *MessageQueue) AllocateAndBuildMessage(size uint64, buildMessageFn func(*Builder)) {
 	if size > 0 {
-		select {
-		case err := <-mq.allocator.AllocateBlockMemory(mq.p, size):
-			if err != nil {
-				// the reservation was failed (the peer's memory was released by a
-				// queue shutdown): nothing is held for this data
-				size = 0
+		var reservation <-chan error
+		mq.buildersLk.Lock()
+		if !mq.memoryReleased {
+			reservation = mq.allocator.AllocateBlockMemory(mq.p, size)
+		}
+		mq.buildersLk.Unlock()
+		if reservation == nil {
+			// the queue is gone and has returned the peer's memory: nothing is
+			// reserved for data that can only be reported as failed
+			size = 0
+		} else {
+			select {
+			case err := <-reservation:
+				if err != nil {
+					// the reservation was failed (the peer's memory was released by a
+					// queue shutdown): nothing is held for this data
+					size = 0
+				}
+			case <-mq.ctx.Done():
+				return
 			}
-		case <-mq.ctx.Done():
-			return
 		}
 	}
 	if mq.buildMessage(size, buildMessageFn) {
@@ -159,7 +175,9 @@ func (mq *MessageQueue) failBuild(size uint64, buildMessageFn func(*Builder)) {
 	mq.nextBuilderTopic++
 	builder := NewBuilder(mq.ctx, topic)
 	buildMessageFn(builder)
-	if size > 0 {
+	// (a reservation granted before the run loop returned the peer's memory
+	// has been returned with it)
+	if size > 0 && !mq.memoryReleased {
 		_ = mq.allocator.ReleaseBlockMemory(mq.p, size)
 	}
 	for _, responseStream := range builder.responseStreams {
@@ -201,7 +219,10 @@ func (mq *MessageQueue) Shutdown() {
 
 func (mq *MessageQueue) runQueue() {
 	defer func() {
+		mq.buildersLk.Lock()
 		_ = mq.allocator.ReleasePeerMemory(mq.p)
+		mq.memoryReleased = true
+		mq.buildersLk.Unlock()
 		mq.eventPublisher.Shutdown()
 		mq.onShutdown(mq.p)
 	}()
